@@ -599,10 +599,14 @@ func (s *Stage) Recover() {
 					// this version was delivered before the restart and what
 					// is staged is a copy received again (the counterpart of
 					// "Ignoring duplicate (receive)").
+					verifhook.Point("stage.recover.dup.begin", finalFile.name, finalFile.hash, s.rootDir)
 					s.logInfo("Ignoring duplicate (recover):", finalFile.name)
 					os.Remove(finalFile.path + fullExt)
+					verifhook.Point("stage.d.rmfull", finalFile.path)
 					os.Remove(finalFile.path + compExt)
+					verifhook.Point("stage.d.rmcmp", finalFile.path)
 					s.delPathLock(finalFile.path)
+					verifhook.Point("stage.recover.dup.end", finalFile.name, finalFile.hash, s.rootDir)
 					continue
 				}
 				s.toCache(finalFile, stateReceived)
